@@ -346,6 +346,70 @@ def jsOp (op : String) (j : JS) : Option String :=
     some (reply (typeofOut (typeofJS j)) (typeofOut (Spec.typeofJS j)) "-")
   | _ => none
 
+/-! ### heap graphs:  `jsh export <root> <node0>;<node1>;…`   node ::= A({<HVal>|H ,}) | O({<key>,<HVal>,})   HVal ::= R<addr> | <JS> -/
+
+def ref? (t : String) : Option Nat :=
+  if t.startsWith "R" then (t.drop 1).toNat? else none
+
+def parseHElems : Nat → List String → Option (List (Option HVal) × List String)
+  | 0, _ => none
+  | _ + 1, ")" :: r => some ([], r)
+  | f + 1, "H" :: "," :: r => (parseHElems f r).map fun (es, r) => (none :: es, r)
+  | f + 1, t :: r =>
+    match ref? t, r with
+    | some a, "," :: r => (parseHElems f r).map fun (es, r) => (some (.ref a) :: es, r)
+    | _, _ => match parseJ (f + 1) (t :: r) with
+      | some (j, "," :: r) => (parseHElems f r).map fun (es, r) => (some (.leaf j) :: es, r)
+      | _ => none
+  | _ + 1, [] => none
+
+def parseHProps : Nat → List String → Option (List (List Nat × HVal) × List String)
+  | 0, _ => none
+  | _ + 1, ")" :: r => some ([], r)
+  | f + 1, k :: "," :: t :: r =>
+    match key? k with
+    | none => none
+    | some k =>
+      match ref? t, r with
+      | some a, "," :: r => (parseHProps f r).map fun (ps, r) => ((k, .ref a) :: ps, r)
+      | _, _ => match parseJ (f + 1) (t :: r) with
+        | some (j, "," :: r) => (parseHProps f r).map fun (ps, r) => ((k, .leaf j) :: ps, r)
+        | _ => none
+  | _ + 1, _ => none
+
+def node? (s : String) : Option HNode :=
+  let ts := lex s
+  match ts with
+  | "A" :: "(" :: r => match parseHElems (ts.length + 1) r with
+    | some (es, []) => some (.arr es)
+    | _ => none
+  | "O" :: "(" :: r => match parseHProps (ts.length + 1) r with
+    | some (ps, []) => some (.obj ps)
+    | _ => none
+  | _ => none
+
+def heap? (s : String) : Option Heap :=
+  if s = "-" then some [] else
+  (s.splitOn ";").foldr (fun n acc => match node? n, acc with
+    | some x, some l => some (x :: l)
+    | _, _ => none) (some [])
+
+def hval? (t : String) : Option HVal :=
+  match ref? t with
+  | some a => some (.ref a)
+  | none => (js? t).map .leaf
+
+open Spec.Dev in
+def jshOp (op : String) (H : Heap) (v : HVal) : Option String :=
+  match op with
+  | "export" =>
+    let m := exportH H (H.length + 1) [] v
+    -- the clash region on graphs: the Array typing rule (Model.finishArr) panics on a reachable Array
+    let isPanic := match m with | .panic => true | _ => false
+    some (reply (resOut treeOut (m.map (Spec.erase env))) (resOut treeOut (Spec.exportGraph env H v))
+      (devList [(isPanic, "export_type_clash_panic"), (heapHole H v, "export_array_hole")]))
+  | _ => none
+
 /-! ### calls -/
 
 def asciiOut (bs : List Nat) : String := String.ofList (bs.map Char.ofNat)
@@ -391,6 +455,9 @@ def handle (ws : List String) : String :=
   | ["js", op, a] => match js? a with
     | some j => (jsOp op j).getD "bad-op"
     | none => "bad-op"
+  | ["jsh", op, root, heap] => match hval? root, heap? heap with
+    | some v, some H => (jshOp op H v).getD "bad-op"
+    | _, _ => "bad-op"
   | "call" :: kind :: mem :: this :: args => match path? kind mem this, goVals? args with
     | some p, some gs => callOp p gs
     | _, _ => "bad-op"
